@@ -124,6 +124,25 @@ var scenarios = []scenario{
 		ops:   []scOp{{0, "send", "A"}, {0.1, "send", "A"}, {0.85, "send", "B"}},
 		reply: map[string]float64{"r1": 0.9, "r2": 0.1, "r3": 0.1}, end: 4.5, only: []string{"ws.Write>|2"}, prop: "C08", scale: 4, stall: 0.4, repeat: 6,
 		sigs: []string{"timeout-early", "timeout-of-unwritten", "concluded-twice", "never-concluded"}},
+	// S11b: the pump is inside a slow Write of r1 while 24 more requests for A are accepted (the wake-up channel has room for 20)
+	// and r1 is answered: every SendRequest returns and all 25 requests are written and concluded
+	{name: "s-burst-while-pump-busy", server: true, clients: []string{"A"},
+		ops:   burstOps(),
+		reply: burstReplies(), end: 8.0, only: []string{"ws.Write>|1"}, prop: "C07", scale: 4,
+		sigs: []string{"never-concluded"}},
+	// S11a: the requests of A and C time out together and A's cancel callback is slow, so A's ready token and C's expiry are both
+	// waiting when the pump returns; if it takes the expiry first it has to post C's ready token while A's is still in the slot:
+	// it must not block on its own channel; later requests are served
+	{name: "s-two-timeouts", server: true, clients: []string{"A", "C"},
+		ops:   []scOp{{0, "send", "A"}, {0.02, "send", "C"}, {3.0, "send", "A"}, {3.1, "send", "C"}},
+		reply: map[string]float64{"r1": -1, "r2": -1, "r3": 0.1, "r4": 0.1}, end: 5.5, only: []string{"handler.cancel|1"}, prop: "C07", scale: 4, stall: 0.3, repeat: 6,
+		sigs: []string{"never-concluded"}},
+	// the pump has decided to dispatch r1 to A (slow queue-map lookup inside the dispatch); A's connection drops and the same id
+	// reconnects meanwhile, so the lookup returns the new session's empty queue: the server must survive and serve the new session
+	{name: "s-reconnect-during-dispatch", server: true, clients: []string{"A"},
+		ops:   []scOp{{0, "send", "A"}, {0.1, "disconnect", "A"}, {0.2, "connect", "A"}, {1.0, "send", "A"}},
+		reply: map[string]float64{"r1": 0.1, "r2": 0.1}, end: 3.5, only: []string{"qmap.Get<|3"}, prop: "C06", scale: 4, stall: 0.5,
+		sigs: []string{"two-outstanding"}},
 	{name: "s-two-clients", server: true, clients: []string{"A", "B"},
 		ops:   []scOp{{0, "send", "A"}, {0.05, "send", "B"}, {0.5, "send", "A"}, {0.55, "send", "B"}},
 		reply: map[string]float64{"r1": -1, "r2": 0.1, "r3": 0.1, "r4": 0.1}, end: 3.2},
@@ -136,6 +155,22 @@ var scenarios = []scenario{
 	{name: "s-late-reply", server: true, clients: []string{"A", "B"},
 		ops:   []scOp{{0, "send", "A"}, {0.1, "send", "A"}, {0.15, "send", "B"}},
 		reply: map[string]float64{"r1": 0.92, "r2": 0.2, "r3": 0.95}, end: 3.2},
+}
+
+func burstOps() []scOp {
+	ops := []scOp{{0, "send", "A"}}
+	for k := 0; k < 24; k++ {
+		ops = append(ops, scOp{0.1 + 0.01*float64(k), "send", "A"})
+	}
+	return ops
+}
+
+func burstReplies() map[string]float64 {
+	m := map[string]float64{"r1": 0.6}
+	for k := 2; k <= 25; k++ {
+		m[fmt.Sprintf("r%d", k)] = 0.05
+	}
+	return m
 }
 
 const schedT = 10 * time.Millisecond
